@@ -74,6 +74,11 @@ class SymInputs(_Base):
     def mod(self, short: str):
         return self.loader.mod(short)
 
+    def fresh_modules(self) -> None:
+        """Re-load the repository modules (class-level and default-argument state of
+        a previous path must not leak into this one)."""
+        self.loader = Loader(self.loader.src_root, self.loader.path_cls, self.loader.shutil_mod)
+
     # -- environment ------------------------------------------------------------------
     def _empty_leaf(self, code: str):
         name = f"empty[{self._empty_n}]"
@@ -510,6 +515,12 @@ class ConcInputs(_Base):
         if m is not None and not os.path.realpath(getattr(m, "__file__", "")).startswith(root):
             for k in [k for k in sys.modules if k == "basictdf" or k.startswith("basictdf.")]:
                 del sys.modules[k]
+
+    def fresh_modules(self) -> None:
+        self.unpatch()
+        self._mods = {}
+        for k in [k for k in sys.modules if k == "basictdf" or k.startswith("basictdf.")]:
+            del sys.modules[k]
 
     def mod(self, short: str):
         if short in self._mods:
